@@ -1,3 +1,4 @@
+import Rangers.Model.Decimal
 /-
 Model of the native-token ledger of go-rangers (property C06). Core Lean only.
 
@@ -5,7 +6,7 @@ What is transcribed (file:function of /repo in brackets):
  * the balance slot primitives            [storage/account/accountdb_tuntun.go: AddFT/SubFT/SetFT, ERC-20 branch,
                                            which is the only branch `SYSTEM-RPG` ever takes: GetERC20Binding
                                            answers `found` unconditionally for BLANCE_NAME]
- * amount strings                         [utility/data_convert.go: StrToBigInt] on the grammar of big.Float.Parse
+ * amount strings                         [utility/data_convert.go: StrToBigInt] = C18's Model/Decimal.lean (exact big.Float)
  * `transferBalance`, `ChangeAssets`      [service/game.go]
  * `ProcessFee`                           [service/transaction_pool.go]
  * contract executor                      [executor/contract_executor.go: decodeContractData, preCheckContractFee,
@@ -71,75 +72,21 @@ def isDigit (c : Char) : Bool := '0' ≤ c && c ≤ '9'
 
 def digitsVal (cs : List Char) : Nat := cs.foldl (fun acc c => acc * 10 + (c.toNat - 48)) 0
 
-/-- Result of `big.ParseFloat(s, 10, 512, AwayFromZero)` as far as `StrToBigInt` can see it. -/
-inductive Parsed where
-  | err                                         -- Parse returned an error
-  | inf                                         -- ±Inf  (then `target.Int(result)` leaves `result` 0)
-  | num (neg : Bool) (mant : Nat) (exp10 : Int) -- ± mant · 10^exp10, exact
-  | outside                                     -- syntactically a number but outside the modelled domain
-  deriving Repr, DecidableEq
-
-/-- Bounds of the modelled domain: at most 40 mantissa digits, decimal exponent of at most 3 digits and
-    magnitude ≤ 40, no binary (`p`) exponent. Inside it the two 512-bit roundings of `strToBigInt` cannot
-    change the truncated integer (argued in design/C06.md; proved for the decimal core by C18). -/
-def maxDigits : Nat := 40
-def maxExp : Nat := 40
-
-def splitDigits (cs : List Char) : List Char × List Char := (cs.takeWhile isDigit, cs.dropWhile isDigit)
-
-/-- exponent part after the mantissa: `[eE][+-]?digits` then end of string. -/
-def parseExp (neg : Bool) (mant : Nat) (ndig : Nat) (fcount : Nat) (rest : List Char) : Parsed :=
-  let fin (e : Int) : Parsed :=
-    if ndig > maxDigits then .outside else .num neg mant (e - fcount)
-  match rest with
-  | [] => fin 0
-  | c :: r =>
-    if c = 'e' || c = 'E' then
-      let (eneg, r1) := match r with
-        | '-' :: t => (true, t)
-        | '+' :: t => (false, t)
-        | t => (false, t)
-      let (ds, r2) := splitDigits r1
-      if ds.isEmpty then .err
-      else if !r2.isEmpty then .err
-      else if ds.length > 3 || digitsVal ds > maxExp then .outside
-      else fin (if eneg then - (digitsVal ds : Int) else (digitsVal ds : Int))
-    else if c = 'p' || c = 'P' then .outside
-    else .err
-
-def parseFloat (s : String) : Parsed :=
-  if s = "Inf" || s = "inf" || s = "+Inf" || s = "+inf" || s = "-Inf" || s = "-inf" then .inf else
-  let cs := s.toList
-  let (neg, cs) := match cs with
-    | '-' :: t => (true, t)
-    | '+' :: t => (false, t)
-    | t => (false, t)
-  let (ip, r) := splitDigits cs
-  let (fp, r, dot) := match r with
-    | '.' :: t => let (f, r') := splitDigits t; (f, r', true)
-    | t => ([], t, false)
-  let _ := dot
-  if ip.isEmpty && fp.isEmpty then .err
-  else parseExp neg (digitsVal (ip ++ fp)) (ip.length + fp.length) fp.length r
-
-/-- `utility.StrToBigInt`: `none` = error; empty string is 0; ±Inf is 0; otherwise the value times 10^18,
-    truncated toward zero. `outside` is reported separately so the driver can answer `unmodelled`. -/
+/-- Result of `utility.StrToBigInt`: an error, or the `big.Int` value. -/
 inductive Amount where
   | err
-  | outside
   | val (v : Int)
   deriving Repr, DecidableEq
 
+/-- `utility.StrToBigInt` with the exact `big.ParseFloat(s, 10, 512, AwayFromZero)` / `Float.Mul` / `Float.Int`
+    semantics of C18's model (`Rangers.Decimal.StrToBigInt`: every string, binary `p` exponents, exponent
+    overflow, the two 512-bit roundings). `panic` (ErrNaN) is unreachable (`Props.C18.strToBigInt_never_panics`)
+    and mapped to `err`. -/
 def strToBigInt (s : String) : Amount :=
-  if s.isEmpty then .val 0 else
-  match parseFloat s with
+  match Rangers.Decimal.StrToBigInt s.toList with
+  | .ok v => .val v
   | .err => .err
-  | .outside => .outside
-  | .inf => .val 0
-  | .num neg m e =>
-    let e18 : Int := e + 18
-    let mag : Nat := if e18 ≥ 0 then m * 10 ^ e18.toNat else m / 10 ^ (-e18).toNat
-    .val (if neg then - (mag : Int) else (mag : Int))
+  | .panic => .err
 
 /-! ### Constants (tied to the source by `Generated/LedgerFacts.lean`, see Props/C06) -/
 
@@ -158,6 +105,25 @@ def zeroByteGas : Nat := 4
 def uint64Max : Nat := 18446744073709551615
 def wei : Nat := 1000000000000000000
 
+/-- `n * k`, written by recursion on `n`: proof checking then never multiplies a variable by a large literal `k`
+    (the kernel would unfold `Nat.mul` along the literal). Compiled code uses the product (`scale_eq_mul`). -/
+def scale (k : Nat) : Nat → Nat
+  | 0 => 0
+  | n + 1 => scale k n + k
+
+theorem scale_eq (k n : Nat) : scale k n = n * k := by
+  induction n with
+  | zero => exact (Nat.zero_mul k).symm
+  | succ m ih => rw [scale, ih, Nat.succ_mul]
+
+def scaleMul (k n : Nat) : Nat := n * k
+
+@[csimp] theorem scale_eq_mul : @scale = @scaleMul := by
+  funext k n; exact scale_eq k n
+
+/-- gas units to wei at the fixed gas price -/
+def gasCost (gas : Nat) : Nat := scale gasPrice gas
+
 /-! ### Operator (asset transfer) transactions: service/game.go -/
 
 /-- `transferBalance`: parse, sign test, balance test, credit target, debit source (result dropped).
@@ -165,7 +131,6 @@ def wei : Nat := 1000000000000000000
 def transferBalance (b : Bal) (src tgt : Addr) (amount : Amount) : Option Bal :=
   match amount with
   | .err => none
-  | .outside => none
   | .val v =>
     if v < 0 then none
     else if ((get b src : Nat) : Int) < v then none
@@ -195,6 +160,9 @@ inductive Action where
   | create (value : Nat) (init : List Action)
   | suicide (beneficiary : Addr)
   | authcall (to : Addr) (value : Nat)
+  | stake (value : Nat)
+  | unstake (value : Nat)
+  | unstakeAll
   | revert
   | invalid
   | stop
@@ -206,6 +174,88 @@ def codeAt : Code → Addr → Script
   | [], _ => []
   | (k, s) :: r, a => if k = a then s else codeAt r a
 
+/-! ### Miner registry abstracted to the stake table the ledger needs -/
+
+/-- One miner as far as the ledger is concerned (service/miner_manager.go: the slots `id`, `H id` = stake,
+    `H (H id)` = account). `visible` = the miner's info record is already in the committed registry trie: the
+    account iterator (`GetMinerIdByAccount`) walks the trie, which receives a block's writes only at its end. -/
+structure MinerRec where
+  id : Nat
+  account : Addr
+  stake : Nat        -- whole tokens (uint64)
+  typ : Nat          -- 0 validator, 1 proposer
+  visible : Bool
+
+abbrev Reg := List MinerRec
+
+def regGet : Reg → Nat → Option MinerRec
+  | [], _ => none
+  | m :: r, id => if m.id = id then some m else regGet r id
+
+/-- `UpdateMiner`: overwrite the slots of that id (insert when new) -/
+def regSet : Reg → MinerRec → Reg
+  | [], x => [x]
+  | m :: r, x => if m.id = x.id then x :: r else m :: regSet r x
+
+def regDel : Reg → Nat → Reg
+  | [], _ => []
+  | m :: r, id => if m.id = id then r else m :: regDel r id
+
+/-- `GetMinerIdByAccount`: first miner of the committed trie whose (live) account slot equals `a`.
+    (With several miners on one account the code answers the first in trie-key order; the harness keeps
+    accounts unique.) -/
+def byAccount : Reg → Addr → Option MinerRec
+  | [], _ => none
+  | m :: r, a => if m.visible && m.account = a then some m else byAccount r a
+
+/-- whole tokens to wei (`n * 10^18`); equals `utility.Float64ToBigInt(float64(n))` and `Uint64ToBigInt(n)` for
+    n < 2^53. -/
+def toWei (n : Nat) : Nat := scale wei n
+
+theorem toWei_eq (n : Nat) : toWei n = n * wei := scale_eq wei n
+
+def stakeSum : Reg → Nat
+  | [] => 0
+  | m :: r => toWei m.stake + stakeSum r
+
+def minStake (typ : Nat) : Nat := if typ = 1 then 2000 else if typ = 0 then 400 else 0
+
+/-- `RefundManager.GetRefundStake(now, id, account, money)` on the registry: `none` = error;
+    otherwise the new registry, the tokens refunded and the miner's account.
+    `money = MaxUint64` means "all". A miner left below the minimum stake is removed: deleted when nothing is
+    left and its account is not a contract, else kept (status abort) with the remaining stake. -/
+def getRefundStake (r : Reg) (hasCode : Addr → Bool) (id : Nat) (account : Addr) (money : Nat) :
+    Option (Reg × Nat × Addr) :=
+  match regGet r id with
+  | none => none
+  | some m =>
+    if m.account ≠ account then none else
+    let money := if money = uint64Max then m.stake else money
+    if m.stake < money then none else
+    let left := m.stake - money
+    let r' := if left < minStake m.typ && left = 0 && !hasCode account then regDel r id
+              else regSet r { m with stake := left }
+    some (r', money, m.account)
+
+/-! ### The refund / reward escrow -/
+
+/-- The refund/reward escrow: (due height, beneficiary, amount). In the code: storage of the pseudo-accounts
+    `sha256("refund" ++ height)`, written by `RefundManager.Add`, emptied by `CheckAndMove`. -/
+abbrev Escrow := List (Nat × Addr × Nat)
+
+def escrowTotal : Escrow → Nat
+  | [] => 0
+  | (_, _, v) :: r => v + escrowTotal r
+
+/-- entries due at height `h`, as the list `CheckAndMove h` pays out -/
+def dueAt : Escrow → Nat → List (Addr × Nat)
+  | [], _ => []
+  | (k, a, v) :: r, h => if k = h then (a, v) :: dueAt r h else dueAt r h
+
+def notDueAt : Escrow → Nat → Escrow
+  | [], _ => []
+  | (k, a, v) :: r, h => if k = h then notDueAt r h else (k, a, v) :: notDueAt r h
+
 /-- Ledger-relevant part of the account state while a block executes. `burned` is a ghost counter
     (value destroyed by SELFDESTRUCT naming the contract itself); nothing reads it. -/
 structure St where
@@ -213,6 +263,12 @@ structure St where
   dead : List Addr
   fresh : Nat
   burned : Nat
+  reg : Reg := []
+  escrow : Escrow := []
+  /-- ghost: wei escrowed for refund by UNSTAKE beyond the stake it removed (known finding) -/
+  excess : Nat := 0
+  /-- height of the block being executed (constant during a block) -/
+  height : Nat := 0
 
 /-- Addresses handed to CREATE/CREATE2 frames: above the 160-bit range, so never one of the op-line addresses
     (in the code: keccak of (creator, nonce) / (creator, salt, code); collision with a live address is the
@@ -229,6 +285,53 @@ def suicide (s : St) (self ben : Addr) : St :=
 
 /-- A failed frame is reverted to the snapshot taken at frame entry; only the address counter survives. -/
 def revertTo (snap after : St) : St := { snap with fresh := after.fresh }
+
+def refundDelay : Nat := 36000
+
+def hasCodeIn (code : Code) (a : Addr) : Bool := !(codeAt code a).isEmpty
+
+/-- `opStake` (vm/instructions.go): `target = ParseUint(BigIntToStrWithoutDot(money))` whole tokens; the contract
+    must be the account of a (visible) miner; `AddStake(this, miner, target)`: balance test, stake += target,
+    `SubBalance(this, target tokens)`. Any failure pushes `false` and changes nothing. -/
+def opStake (s : St) (self : Addr) (v : Nat) : St :=
+  let t := v / wei
+  if t > uint64Max then s else
+  match byAccount s.reg self with
+  | none => s
+  | some m =>
+    if t = 0 then s
+    else if get s.bal self < toWei t then s
+    else match regGet s.reg m.id with
+      | none => s
+      | some m' => { s with bal := (subBal s.bal self (toWei t)).1, reg := regSet s.reg { m' with stake := m'.stake + t } }
+
+/-- `opUnStake`: `moneyWithoutDecimal, _ := ParseUint(...)` (a range error yields MaxUint64 = "all");
+    `GetRefundStake` lowers the stake by that many whole tokens; then **the requested amount `v` itself** is
+    escrowed for the transaction origin (plus `real - v` for the miner account when the removed stake exceeds `v`).
+    Due height: now + 36000 (Proposal012). -/
+def opUnStake (code : Code) (origin : Addr) (s : St) (self : Addr) (v : Nat) : St :=
+  match byAccount s.reg self with
+  | none => s
+  | some m =>
+    let mwd := if v / wei > uint64Max then uint64Max else v / wei
+    match getRefundStake s.reg (hasCodeIn code) m.id self mwd with
+    | none => s
+    | some (r', refund, acct) =>
+      let real := toWei refund
+      let h := s.height + refundDelay
+      let e1 := if v < real then s.escrow ++ [(h, acct, real - v)] else s.escrow
+      { s with reg := r', escrow := e1 ++ [(h, origin, v)], excess := s.excess + (v - real) }
+
+/-- `opUnStakeAll`: the whole stake is refunded to the miner account; an unknown miner or a refusal is an
+    execution error of the frame (`none`). -/
+def opUnStakeAll (code : Code) (s : St) (self : Addr) : Option St :=
+  match byAccount s.reg self with
+  | none => none
+  | some m =>
+    match getRefundStake s.reg (hasCodeIn code) m.id self uint64Max with
+    | none => none
+    | some (r', refund, acct) =>
+      some { s with reg := r', escrow := s.escrow ++ [(s.height + refundDelay, acct, toWei refund)] }
 
 /-- Executes the actions of one frame running as `self`. `fuel` is the gas bound: each action and each frame
     entry costs at least one unit, running out is the out-of-gas error of that frame.
@@ -278,6 +381,12 @@ def exec (code : Code) (origin : Addr) : Nat → Addr → Bool → Script → St
           let r := exec code origin f na false init { s0 with bal := vmTransfer s0.bal self na v }
           if r.2 then r.1 else revertTo s0 r.1
       exec code origin f self ro rest s1
+    | .stake v => exec code origin f self ro rest (opStake s self v)
+    | .unstake v => exec code origin f self ro rest (opUnStake code origin s self v)
+    | .unstakeAll =>
+      match opUnStakeAll code s self with
+      | none => (s, false)
+      | some s1 => exec code origin f self ro rest s1
     | .authcall to v =>
       -- evm.AuthCall with a valid authorisation: the sponsor (tx origin) pays the value
       let s1 :=
@@ -351,16 +460,15 @@ def contractBefore (b : Bal) (t : ContractTx) : (Status × Bal) ⊕ (Bal × Nat 
     | some raw =>
       match strToBigInt t.value with
       | .err => .inl (.failed, b1)
-      | .outside => .inl (.failed, b1)
       | .val v =>
         -- preCheckContractFee: balance < gasLimit*price + value  →  ErrInsufficientFunds
-        if ((get b1 t.src : Nat) : Int) < ((raw * gasPrice : Nat) : Int) + v then .inl (.failed, b1)
+        if ((get b1 t.src : Nat) : Int) < ((gasCost raw : Nat) : Int) + v then .inl (.failed, b1)
         else .inr (b1, raw, v)
 
 /-- Charging a gas fee: clamp `gasUsed * price` to the balance, debit the sender, credit the fee account.
     Transcribes both `deductGasFee` (core/vmexecutor.go) and the fee step of `contractExecutor.Execute`. -/
 def chargeGas (b : Bal) (src : Addr) (gasUsed : Nat) : Bal :=
-  let want := gasUsed * gasPrice
+  let want := gasCost gasUsed
   let fee := if get b src < want then get b src else want
   addBal (subBal b src fee).1 feeAccount fee
 
@@ -382,29 +490,63 @@ def contractExecute (code : Code) (fuel : Nat) (t : ContractTx) (raw : Nat) (v :
   let b2 := chargeGas r.1.bal t.src t.gasUsed
   ({ r.1 with bal := b2 }, r.2, some t.gasUsed)
 
-/-! ### Stake lock and refund at ledger level -/
+/-! ### Miner transactions (executor/miner_executor.go, service/miner_manager.go, service/refund_manager.go) -/
 
-/-- `utility.Float64ToBigInt(float64(n))` for a stake of `n` whole tokens: exact for n < 2^53
-    (the driver refuses larger ones). -/
-def stakeOf (n : Nat) : Nat := n * wei
+/-- `minerApplyExecutor.Execute` → `MinerManager.AddMiner`: type, minimum stake, keys, balance, id not yet a miner,
+    account not yet owning a (visible) miner; then `SubBalance(src, stake tokens)` and the new record.
+    `none` = the executor answered false. -/
+def minerApply (s : St) (src : Addr) (id typ stake : Nat) (account : Addr) (keysOk : Bool) : Option St :=
+  if typ ≠ 0 && typ ≠ 1 then none
+  else if stake < minStake typ then none
+  else if !keysOk then none
+  else if get s.bal src < toWei stake then none
+  else if (regGet s.reg id).isSome then none
+  else if (byAccount s.reg account).isSome then none
+  else some { s with bal := (subBal s.bal src (toWei stake)).1,
+                     reg := regSet s.reg { id := id, account := account, stake := stake, typ := typ, visible := false } }
 
-/-- Ledger effect of `MinerManager.AddStake` / `AddMiner` for a stake of `stake` wei: balance test, then
-    `SubBalance(addr, stake)`. `registryOk` stands for every non-ledger test of those functions (C20 models them). -/
-def lockStake (b : Bal) (src : Addr) (stake : Nat) (registryOk : Bool) : Option Bal :=
-  if get b src < stake then none
-  else if !registryOk then none
-  else some (subBal b src stake).1
+/-- `minerAddExecutor.Execute` → `MinerManager.AddStake`. -/
+def minerAdd (s : St) (src : Addr) (id delta : Nat) : Option St :=
+  if delta = 0 then some s
+  else if get s.bal src < toWei delta then none
+  else match regGet s.reg id with
+    | none => none
+    | some m => some { s with bal := (subBal s.bal src (toWei delta)).1, reg := regSet s.reg { m with stake := m.stake + delta } }
+
+/-- `minerRefundExecutor.Execute`: an unsigned transaction is a successful no-op; the amount must parse as uint64
+    (`amount = none` otherwise); `GetRefundStake` with the sender as account; the refund (due now + 36000) is put
+    into the executor context and reaches the escrow at the end of the block.
+    (Two different accounts refunding into one height in one block: the second entry is dropped by the code —
+    C20's subject; the harness keeps one refund per block.) -/
+def minerRefund (code : Code) (s : St) (src : Addr) (id : Nat) (amount : Option Nat) (signed : Bool) :
+    Option (St × Escrow) :=
+  if !signed then some (s, []) else
+  match amount with
+  | none => none
+  | some a =>
+    match getRefundStake s.reg (hasCodeIn code) id src a with
+    | none => none
+    | some (r', refund, acct) => some ({ s with reg := r' }, [(s.height + refundDelay, acct, toWei refund)])
 
 /-- `ten = StrToBigInt("10")` of executor/miner_node_executor.go -/
 def nodeFee : Nat := 10000000000000000000
 
-/-- Ledger effect of `minerNodeExecutor.Execute` (OperatorNode, type 7): balance test against 10 RPG,
-    `SubBalance(owner, ten)` — credited to nobody — then the registry / main-node-contract steps
-    (`registryOk`); any later failure makes the caller revert. -/
-def nodeTx (b : Bal) (src : Addr) (registryOk : Bool) : Option Bal :=
-  if get b src < nodeFee then none
-  else if !registryOk then none
-  else some (subBal b src nodeFee).1
+/-- `minerNodeExecutor.Execute` (OperatorNode, type 7): balance test against 10 RPG, `SubBalance(owner, ten)` —
+    credited to nobody —, the sender must own a (visible) miner, the main-node contract call must yield the new
+    contract account (`mainOk`, `newAcct`: inputs), which replaces the miner's account. Any failure after the debit
+    makes the caller revert. -/
+def nodeTxWith (fee : Nat) (s : St) (src : Addr) (newAcct : Addr) (mainOk : Bool) : Option St :=
+  if get s.bal src < fee then none
+  else match byAccount s.reg src with
+    | none => none
+    | some m =>
+      match regGet s.reg m.id with
+      | none => none
+      | some m' =>
+        if !mainOk then none
+        else some { s with bal := (subBal s.bal src fee).1, reg := regSet s.reg { m' with account := newAcct } }
+
+def nodeTx (s : St) (src : Addr) (newAcct : Addr) (mainOk : Bool) : Option St := nodeTxWith nodeFee s src newAcct mainOk
 
 /-- `RefundManager.CheckAndMove`: every (address, value) of the escrow list is credited. -/
 def refundMove (b : Bal) : List (Addr × Nat) → Bal
@@ -416,12 +558,16 @@ def refundMove (b : Bal) : List (Addr × Nat) → Bal
 inductive Tx where
   | operator (src : Addr) (dataOk : Bool) (targets : List (Addr × Amount))
   | contract (t : ContractTx)
-  | lock (src : Addr) (stake : Nat) (registryOk : Bool)  -- miner apply / add-stake transactions (stake in wei)
-  | node (src : Addr) (registryOk : Bool)                -- OperatorNode transaction (type 7)
+  | apply (src : Addr) (id typ stake : Nat) (account : Addr) (keysOk : Bool)   -- MinerApply (type 2)
+  | addStake (src : Addr) (id delta : Nat)                                     -- MinerAdd (type 5)
+  | refund (src : Addr) (id : Nat) (amount : Option Nat) (signed : Bool)       -- MinerRefund (type 3)
+  | node (src : Addr) (newAcct : Addr) (mainOk : Bool)                         -- OperatorNode (type 7)
 
 /-- Block-scoped executor context: `context["gasUsed"]` is never cleared between transactions. -/
 structure Ctx where
   gasUsed : Option Nat
+  /-- `context["refund"]`: refunds of miner-refund transactions, added to the escrow by `after()` -/
+  pending : Escrow := []
 
 structure World where
   st : St
@@ -441,20 +587,34 @@ def execTx (fuel : Nat) (w : World) : Tx → World × Status
       match changeAssets b1 src targets with
       | none => ({ w with st := { w.st with bal := b1 } }, .failed)
       | some b2 => ({ w with st := { w.st with bal := b2 } }, .success)
-  | .lock src n registryOk =>
+  | .apply src id typ stake account keysOk =>
     match processFee w.st.bal src with
     | none => (w, .failed)
     | some b1 =>
-      match lockStake b1 src n registryOk with
+      match minerApply { w.st with bal := b1 } src id typ stake account keysOk with
       | none => ({ w with st := { w.st with bal := b1 } }, .failed)
-      | some b2 => ({ w with st := { w.st with bal := b2 } }, .success)
-  | .node src registryOk =>
+      | some s2 => ({ w with st := s2 }, .success)
+  | .addStake src id delta =>
     match processFee w.st.bal src with
     | none => (w, .failed)
     | some b1 =>
-      match nodeTx b1 src registryOk with
+      match minerAdd { w.st with bal := b1 } src id delta with
       | none => ({ w with st := { w.st with bal := b1 } }, .failed)
-      | some b2 => ({ w with st := { w.st with bal := b2 } }, .success)
+      | some s2 => ({ w with st := s2 }, .success)
+  | .refund src id amount signed =>
+    match processFee w.st.bal src with
+    | none => (w, .failed)
+    | some b1 =>
+      match minerRefund w.code { w.st with bal := b1 } src id amount signed with
+      | none => ({ w with st := { w.st with bal := b1 } }, .failed)
+      | some (s2, pend) => ({ w with st := s2, ctx := { w.ctx with pending := w.ctx.pending ++ pend } }, .success)
+  | .node src newAcct mainOk =>
+    match processFee w.st.bal src with
+    | none => (w, .failed)
+    | some b1 =>
+      match nodeTx { w.st with bal := b1 } src newAcct mainOk with
+      | none => ({ w with st := { w.st with bal := b1 } }, .failed)
+      | some s2 => ({ w with st := s2 }, .success)
   | .contract t =>
     match contractBefore w.st.bal t with
     | .inl (status, b) => ({ w with st := { w.st with bal := b } }, status)
@@ -462,7 +622,7 @@ def execTx (fuel : Nat) (w : World) : Tx → World × Status
       let s1 : St := { w.st with bal := b1 }
       let r := contractExecute w.code fuel t raw v s1
       let ctx' : Ctx := match r.2.2 with
-        | some g => { gasUsed := some g }
+        | some g => { w.ctx with gasUsed := some g }
         | none => w.ctx
       if r.2.1 then ({ w with st := r.1, ctx := ctx' }, .success)
       else
@@ -486,38 +646,28 @@ def execTxs (fuel : Nat) : World → List Tx → World × List Status
     let r2 := execTxs fuel r.1 ts
     (r2.1, r.2 :: r2.2)
 
-def execBlock (fuel : Nat) (w : World) (txs : List Tx) : World × List Status :=
-  let r := execTxs fuel { w with ctx := { gasUsed := none } } txs
-  let w' := r.1
-  ({ w' with code := dropCode w'.code w'.st.dead, st := { w'.st with dead := [] } }, r.2)
-
-/-! ### End of block: reward escrow and the refund mover (`VMExecutor.after`) -/
-
-/-- The refund/reward escrow: (due height, beneficiary, amount). In the code: storage of the pseudo-accounts
-    `sha256("refund" ++ height)`, written by `RefundManager.Add`, emptied by `CheckAndMove`. -/
-abbrev Escrow := List (Nat × Addr × Nat)
-
-def escrowTotal : Escrow → Nat
-  | [] => 0
-  | (_, _, v) :: r => v + escrowTotal r
-
-/-- entries due at height `h`, as the list `CheckAndMove h` pays out -/
-def dueAt : Escrow → Nat → List (Addr × Nat)
-  | [], _ => []
-  | (k, a, v) :: r, h => if k = h then (a, v) :: dueAt r h else dueAt r h
-
-def notDueAt : Escrow → Nat → Escrow
-  | [], _ => []
-  | (k, a, v) :: r, h => if k = h then notDueAt r h else (k, a, v) :: notDueAt r h
-
 /-- `RefundManager.CheckAndMove(h)`: credit every entry due at `h`, remove it from the escrow. -/
 def checkAndMove (b : Bal) (e : Escrow) (h : Nat) : Bal × Escrow :=
   (refundMove b (dueAt e h), notDueAt e h)
 
-/-- `VMExecutor.after` at height `h`: `RefundManager.Add` of what the block produced (`added`: the block reward
-    computed by `RewardCalculator.CalculateReward` — an input, its float arithmetic is C01's subject — and stake
-    refunds), then `CheckAndMove(h)`. -/
+/-- `VMExecutor.after` at height `h`: `RefundManager.Add` of the context refunds and of the block reward
+    (`rewards`: computed by `RewardCalculator.CalculateReward` — an input, its float arithmetic is C01's subject),
+    then `CheckAndMove(h)`. -/
 def afterBlock (b : Bal) (e : Escrow) (h : Nat) (added : Escrow) : Bal × Escrow :=
   checkAndMove b (e ++ added) h
+
+def markVisible : Reg → Reg
+  | [] => []
+  | m :: r => { m with visible := true } :: markVisible r
+
+/-- A whole block at height `h`: fresh executor context, the transactions in order, `after()` (context refunds and
+    `rewards` into the escrow, pay what is due at `h`), then the commit: registry writes become visible to the
+    account iterator, suicided accounts lose their code. -/
+def execBlock (fuel : Nat) (w : World) (h : Nat) (txs : List Tx) (rewards : Escrow) : World × List Status :=
+  let r := execTxs fuel { w with ctx := { gasUsed := none, pending := [] }, st := { w.st with height := h } } txs
+  let w' := r.1
+  let a := afterBlock w'.st.bal w'.st.escrow h (w'.ctx.pending ++ rewards)
+  ({ w' with code := dropCode w'.code w'.st.dead,
+             st := { w'.st with dead := [], bal := a.1, escrow := a.2, reg := markVisible w'.st.reg } }, r.2)
 
 end Rangers.Ledger
